@@ -4,6 +4,10 @@ use crate::*;
 use serde_json::{json, Value};
 
 pub fn run(case: &Value, em: &mut Emitter) {
+    if case["op"] == "bigmap" {
+        crate::big::run_decode_big(case, em);
+        return;
+    }
     let doc = if case.get("doc").is_some() {
         normalise_doc(&case["doc"])
     } else {
@@ -126,6 +130,7 @@ pub fn gen_index_doc(rng: &mut Rng, size: usize, depth: usize) -> Value {
 }
 
 pub fn gen(rng: &mut Rng, size: usize) -> Value {
+    if rng.chance(1, 6) { return crate::big::gen_big(rng, size); }
     match rng.below(10) {
         0 | 1 => json!({"doc": gen_index_doc(rng, size, 2)}),
         2 => json!({"doc": gen_flat_doc(rng, size, true)}),
